@@ -27,7 +27,7 @@ var c07Tris = []string{"timestampsFullPrecision", "pageArith", "limitZeroAll", "
 	"coldFilterCreated", "coldFilterUpdated", "coldFilterExpire", "coldFilterValueType",
 	"addGuardCreated", "addGuardUpdated", "addGuardExpire", "addGuardValueType",
 	"updRefreshCreated", "updRefreshUpdated", "updRefreshValue", "updRefreshExpireOnFlag",
-	"typeChangeDetected", "valueShared", "flagsSticky",
+	"typeChangeDetected", "valueShared", "flagsSticky", "setVoidClearsTyped",
 	"getBeaconServesAllValueTypes", "getBeaconBuildsRequestedType"}
 
 func c07Run(fs *Facts) {
@@ -629,6 +629,18 @@ func c07Flags(fs *Facts, f *File) {
 		return
 	}
 	fs.Tri("typeChangeDetected", TriOf(setInSetter > 0), c07At(c07Treasure, f, firstSetter))
+	if sv := f.Func("treasure", "SetContentVoid"); sv != nil {
+		c07Canon(sv, []string{"t", "guardID"})
+		src := f.Str(sv.Body)
+		early := strings.Contains(src, "if t.treasure.Content != nil && t.treasure.Content.Void { return }")
+		switch {
+		case early && strings.HasSuffix(src, "t.contentChanged = true t.treasure.Content = &Content{ Void: true, } }"):
+			fs.Tri("setVoidClearsTyped", Yes, c07At(c07Treasure, f, sv))
+		case early && strings.Contains(src, "if t.treasure.Content == nil { t.treasure.Content = &Content{ Void: true, } }") &&
+			strings.Contains(src, "if t.treasure.Content.Void != false { t.treasure.Content.Void = true }"):
+			fs.Tri("setVoidClearsTyped", No, c07At(c07Treasure, f, sv))
+		}
+	}
 	fs.Tri("flagsSticky", TriOf(cleared == 0), c07At(c07Treasure, f, f.Func("treasure", "SetExpirationTime")))
 }
 
